@@ -76,7 +76,8 @@ func (g *verifAGhost) leave() { g.present = false }
 
 // verifActiveHistory runs `rounds` rounds of filter.Run. Host a is the host
 // under observation: per round it is absent, passes or fails. Host b is always
-// listed with a symbolic outcome, host c is always listed and passes (so every
+// listed with a symbolic outcome (the same in every round in the quick tier),
+// host c is always listed and passes (so every
 // list has at least two hosts; the single-host rule is a separate harness).
 // With rejoin == false host a never comes back after it left.
 func verifActiveHistory(rounds int, rejoin bool) {
@@ -87,6 +88,9 @@ func verifActiveHistory(rounds int, rejoin bool) {
 	f := NewFilter(FilterConfig{Fails: fails, Passes: passes}, ck)
 	ghost := make([]verifAGhost, 3)
 	left := false
+	// host b: one outcome for the whole run (quick) or one per round (thorough)
+	bPerRound := verif.Bound("b_outcome_per_round", 0, 1) == 1
+	bFails := verif.Bool("b_fails")
 	for r := 0; r < rounds; r++ {
 		addrs := stringset.New(verifAHosts[1], verifAHosts[2])
 		aop := verif.Choice("a_listed", 2) // 0 absent, 1 listed
@@ -104,7 +108,10 @@ func verifActiveHistory(rounds int, rejoin bool) {
 			}
 		}
 		ck.fail[verifAHosts[0]] = verif.Bool("a_fails")
-		ck.fail[verifAHosts[1]] = verif.Bool("b_fails")
+		if bPerRound && r > 0 {
+			bFails = verif.Bool("b_fails")
+		}
+		ck.fail[verifAHosts[1]] = bFails
 		ck.fail[verifAHosts[2]] = false
 
 		got := f.Run(addrs)
